@@ -219,6 +219,26 @@ func runC03(cx *Ctx, r *Report) {
 							}
 						}
 					}
+					if !guarded {
+						// the guard sits in a caller (check / pay / close phases): it holds on every
+						// call chain that reaches the assignment
+						n, all := 0, true
+						for _, evs := range per {
+							for _, x := range evs {
+								if x.ev.Site != ssa.Instruction(st) {
+									continue
+								}
+								n++
+								_, a := x.fact(false, ".State} != 0)")
+								_, b := x.fact(false, ".State != 0)")
+								_, c := x.fact(true, ".State == 0)")
+								if !a && !b && !c {
+									all = false
+								}
+							}
+						}
+						guarded = n > 0 && all
+					}
 					r.check(guarded && !abciReach.Has(f), "typestate", "HTLC.State:=Completed", pos, "State := Completed only under the dominating guard State == Open, on the claim path", "State := Completed without a dominating State == Open guard in "+shortFn(f))
 				case "2": // Refunded
 					r.check(!msgReach.Has(f) && abciReach.Has(f), "typestate", "HTLC.State:=Refunded", pos, "State := Refunded only in "+shortFn(f)+", reachable from the begin blocker and from no message", "State := Refunded in "+shortFn(f)+" which is reachable from a message handler: "+msgReach.Path(f))
@@ -692,6 +712,45 @@ func directionEdgeGuard(x hev, val string, wantEquals bool) bool {
 				}
 				phi, ok := bo.X.(*ssa.Phi)
 				c, ok2 := bo.Y.(*ssa.Const)
+				if ok2 && !ok && c.Value != nil && c.Value.ExactString() == val {
+					// the direction computed by a helper: on each of its returns that yields this
+					// value the deputy comparison has been decided the right way
+					var call *ssa.Call
+					idx := 0
+					switch y := bo.X.(type) {
+					case *ssa.Extract:
+						call, _ = y.Tuple.(*ssa.Call)
+						idx = y.Index
+					case *ssa.Call:
+						call = y
+					}
+					if call != nil {
+						if g := call.Common().StaticCallee(); g != nil && g.Blocks != nil && isIrismodFunc(g) && !onChain(f, g) {
+							nfr := &Frame{Fn: g, Parent: f, Call: call, Depth: f.Depth + 1}
+							found := false
+							for _, ret := range returnsOf(g) {
+								if isFailureReturn(ret) || idx >= len(ret.Results) {
+									continue
+								}
+								rc, isC := ret.Results[idx].(*ssa.Const)
+								if !isC || rc.Value == nil || rc.Value.ExactString() != val {
+									continue
+								}
+								okRet := false
+								for _, ft := range w.blockFacts(nfr, ret.Block(), 0) {
+									if ft.Holds == wantEquals && strings.Contains(ft.Text, "sdk.AccAddress.Equals(addr(msg.Sender), addr(") && strings.Contains(ft.Text, ".DeputyAddress") && !strings.Contains(ft.Text, " : ") {
+										okRet = true
+									}
+								}
+								if !okRet {
+									return false
+								}
+								found = true
+							}
+							return found
+						}
+					}
+				}
 				if !ok || !ok2 || c.Value == nil || c.Value.ExactString() != val {
 					continue
 				}
@@ -703,7 +762,12 @@ func directionEdgeGuard(x hev, val string, wantEquals bool) bool {
 					}
 					pred := phi.Block().Preds[i]
 					okEdge := false
-					for _, ft := range w.blockFacts(f, pred, 0) {
+					efs := w.blockFacts(f, pred, 0)
+					// the edge itself: d := A; if c { d = B } - the value A arrives on the false edge of c
+					if ifi, ok := pred.Instrs[len(pred.Instrs)-1].(*ssa.If); ok && len(pred.Succs) == 2 && pred.Succs[0] != pred.Succs[1] {
+						efs = append(efs, withEquivalents(w.boolValueFacts(f, ifi.Cond, pred.Succs[0] == phi.Block(), 0))...)
+					}
+					for _, ft := range efs {
 						if ft.Holds == wantEquals && strings.Contains(ft.Text, "sdk.AccAddress.Equals(addr(msg.Sender), addr(") && strings.Contains(ft.Text, ".DeputyAddress") && !strings.Contains(ft.Text, " : ") {
 							okEdge = true
 						}
